@@ -28,8 +28,10 @@ pub enum RefOut {
     OutOfDomain(&'static str),
 }
 
+/// identifier characters of the engines: letters (also non-Latin ones), the digits 0-9, `_` and `$`; other numeric
+/// characters (superscripts, fractions, ..) are no identifier characters anywhere
 fn is_word(c: char) -> bool {
-    c.is_alphanumeric() || c == '_' || c == '$'
+    c.is_alphabetic() || c.is_ascii_digit() || c == '_' || c == '$'
 }
 
 /// Reference expander, from the statement of the property. Quoted text is what the TARGET ENGINE reads as quoted:
@@ -83,7 +85,7 @@ pub fn expand_with(d: Dialect, tpl: &str, nvals: usize, brackets_quote: bool) ->
             continue;
         }
         // a word (identifier / number) is copied as a whole; `$` may be part of an identifier
-        if c.is_alphanumeric() {
+        if c.is_alphabetic() || c.is_ascii_digit() {
             let start = i;
             while i < cs.len() && is_word(cs[i]) {
                 i += 1;
@@ -341,6 +343,41 @@ fn inject_compare(d: Dialect, inline: &str, sql: &str, vals: Vec<Value>) -> Vec<
     }
 }
 
+/// one character next to a placeholder: every scalar value below U+0300 and a list of notable ones (separators, full-width
+/// marks, an astral character), in six contexts around a mark - glued between a word and the mark, before it, after it,
+/// between two marks, inside a literal, and after a number. Each is a complete case of `check_one` (to_string, build,
+/// values, inject_parameters) on all three backends.
+fn char_context_family(rep: &Report) -> u64 {
+    let mut chars: Vec<char> = (0u32..0x300).filter_map(char::from_u32).collect();
+    chars.extend(['\u{37e}', '\u{2028}', '\u{2029}', '\u{200b}', '\u{3000}', '\u{ff04}', '\u{ff1f}', '\u{ff07}', '\u{feff}', '\u{2019}', '\u{1f600}']);
+    let mut n = 0;
+    for c in chars {
+        for d in DIALECTS {
+            let m = |k: usize| if d == Dialect::Postgres { format!("${k}") } else { "?".to_string() };
+            let tpls = [
+                (format!("a{c}{}", m(1)), 1usize),
+                (format!("{c}{} b", m(1)), 1),
+                (format!("{}{c}a", m(1)), 1),
+                (format!("{}{c}{}", m(1), m(2)), 2),
+                (format!("'{c}{}' {}", m(1), m(1)), 1),
+                (format!("1{c}{} ", m(1)), 1),
+            ];
+            for (ctx, (tpl, k)) in tpls.iter().enumerate() {
+                n += 1;
+                if let Err((sig, det)) = check_one(d, tpl, *k, None) {
+                    rep.raw_failures.inc();
+                    rep.violation(Violation {
+                        key: if sig == BRACKET_SIG { format!("template|{}|{}", d.name(), sig) } else { format!("template-char|{}|{}|context {ctx}|U+{:04X}", d.name(), sig, c as u32) },
+                        what: format!("{}: template {:?} with {} values: {}", d.name(), tpl, k, det),
+                        case: json!({"dialect": d.name(), "template": tpl, "nvals": k}),
+                    });
+                }
+            }
+        }
+    }
+    n
+}
+
 /// templates whose values are EXPRESSIONS (`cust_with_expr`, `cust_with_exprs`): every template of a small set x every
 /// ordered pair of value-expression kinds (bound value, column, arithmetic, function call, scalar subquery, CASE, enum
 /// cast - the one the PostgreSQL backend renders in its own way) x 3 backends. The expansion must be the template with
@@ -424,6 +461,8 @@ pub fn run(rep: &Arc<Report>) {
         let dm = crate::dml::DmlModel { kind, menu: crate::dml::dml_menu(kind, rep.thorough()), checks: vec![Box::new(inject_check_dml)] };
         stmt_states += crate::explore::explore(&dm, depth + 1, u64::MAX, rep).states;
     }
+    let cc = char_context_family(rep);
+    rep.set("character_context_template_cases", json!(cc));
     let ev = expr_value_family(rep);
     rep.set("expression_value_template_cases", json!(ev));
     rep.set("statement_states_for_inject_parameters", json!(stmt_states));
